@@ -473,6 +473,11 @@ class Projector:
                     shape_ok = False
                     why.append(f"{r['codemod']}: SAST result without detection tool")
                 for cs in r.get("changeset", []):
+                    # which change entry carries which finding is C06's matter; here: the changes a tool's findings
+                    # caused in a source file name at least one of them
+                    if cs["path"] in self.before and cs["path"].endswith(".py") and cs.get("changes") and not any(ch.get("findings") for ch in cs["changes"]):
+                        shape_ok = False
+                        why.append(f"{r['codemod']}: no change of {cs['path']} in a SAST result names a finding")
                     for ch in cs.get("changes", []):
                         for f in ch.get("findings") or []:
                             if not f.get("id") or not (f.get("rule") or {}).get("id"):
